@@ -1139,4 +1139,137 @@ theorem doAwaitDataResponse_eff (c c' : Ctx) (now : Int) (a : Nat) (d : UseData)
   · rcases ite_inv h with ⟨_, h⟩ | ⟨_, h⟩ <;> cases h
   · rcases ite_inv h with ⟨_, h⟩ | ⟨_, h⟩ <;> cases h
 
+
+/-! ## One whole poll -/
+
+/-- Outcomes of a poll in `ListenToken`. -/
+def ListenPost (c c' : Ctx) (sr : Option Nat) : Prop :=
+  Quiet c c' ∧ RingEvo c.s.p.address c.s.ring c'.s.ring ∧
+  ((c'.s.online = true ∧ ∃ a b, c'.s.st = .listenToken a b) ∨ (c'.s.online = false ∧ c'.s.st = .offline) ∨
+   (c'.s.online = true ∧ c'.s.st = .activeIdle none none 0 ∧ (∃ src, sr = some src) ∧ c'.tx.isSome = true) ∨
+   (c'.s.online = true ∧ (c'.s.st = .claimToken .firstToken ∨ c'.s.st = .claimToken .secondToken)))
+
+/-- Outcomes of a poll in `ActiveIdle`. -/
+def IdlePost (c c' : Ctx) (now : Int) (sr np : Option Nat) : Prop :=
+  Quiet c c' ∧ c'.s.online = c.s.online ∧ RingEvo c.s.p.address c.s.ring c'.s.ring ∧
+  ((∃ sr' np' coll', c'.s.st = .activeIdle sr' np' coll') ∨ (∃ a b, c'.s.st = .listenToken a b) ∨
+   (c'.s.st = .claimToken .firstToken ∨ c'.s.st = .claimToken .secondToken) ∨
+   (sr = none ∧ ∃ rx' pre da sa ret, receiveAll c.rx = .done rx' (pre ++ [(.token da sa, true)]) ret ∧
+      da.toNat = c.s.p.address ∧ sa.toNat ≠ c.s.p.address ∧
+      (sa.toNat = c'.s.ring.ps ∨ np = some sa.toNat) ∧ c'.s.st = .useToken ⟨now, none⟩ false))
+
+/-- Outcomes of a poll in `AwaitStatusResponse`. -/
+def StatusPost (c c' : Ctx) (now : Int) (a : Nat) : Prop :=
+  Quiet c c' ∧ c'.s.online = c.s.online ∧ RingEvo c.s.p.address c.s.ring c'.s.ring ∧
+  (c'.s.st = .awaitStatus a ∨ c'.s.st = .passToken false .first ∨ c'.s.st = .useToken ⟨now, none⟩ false ∨
+   c'.s.st = .checkTokenPass .first ∨ c'.s.st = .activeIdle none none 0)
+
+/-- What the state handler selected by `poll_inner` can do, by start state. -/
+structure DispatchPost (c c' : Ctx) (now : Int) : Prop where
+  listen : ∀ sr coll, c.s.st = .listenToken sr coll → ListenPost c c' sr
+  idle : ∀ sr np coll, c.s.st = .activeIdle sr np coll → IdlePost c c' now sr np
+  use : ∀ d fcd, c.s.st = .useToken d fcd → UsePost c c'
+  claim : ∀ step, c.s.st = .claimToken step → ClaimPost c c'
+  await : ∀ a d, c.s.st = .awaitData a d → AwaitPost c c' a d
+  pass : ∀ g att, c.s.st = .passToken g att → PassPost c c' g att now
+  check : ∀ att, c.s.st = .checkTokenPass att → CheckPost c c' now att
+  status : ∀ a, c.s.st = .awaitStatus a → StatusPost c c' now a
+  awake : c.s.st ≠ .offline ∧ c.s.st ≠ .passiveIdle
+
+theorem dispatch_post (c c' : Ctx) (now : Int) (hon : c.s.online = true) (h : dispatch c now = .ok c') :
+    DispatchPost c c' now := by
+  unfold dispatch at h
+  cases hst : c.s.st with
+  | offline => rw [hst] at h; cases h
+  | passiveIdle => rw [hst] at h; cases h
+  | listenToken sr coll =>
+    rw [hst] at h
+    have := doListenToken_eff c c' now sr coll hon hst h
+    constructor <;> (try (intros; rename_i he; rw [hst] at he; cases he)) <;> (try exact this)
+    simp [hst]
+  | activeIdle sr np coll =>
+    rw [hst] at h
+    have := doActiveIdle_eff c c' now sr np coll hst h
+    constructor <;> (try (intros; rename_i he; rw [hst] at he; cases he)) <;> (try exact this)
+    simp [hst]
+  | useToken d fcd =>
+    rw [hst] at h
+    have := doUseToken_eff c c' now d fcd hst h
+    constructor <;> (try (intros; rename_i he; rw [hst] at he; cases he)) <;> (try exact this)
+    simp [hst]
+  | claimToken step =>
+    rw [hst] at h
+    have := (doClaimToken_eff 2 c c' now step hst h).1
+    constructor <;> (try (intros; rename_i he; rw [hst] at he; cases he)) <;> (try exact this)
+    simp [hst]
+  | awaitData a d =>
+    rw [hst] at h
+    have := doAwaitDataResponse_eff c c' now a d hst h
+    constructor <;> (try (intros; rename_i he; rw [hst] at he; cases he)) <;> (try exact this)
+    simp [hst]
+  | passToken g att =>
+    rw [hst] at h
+    have := doPassToken_eff c c' now g att hst h
+    constructor <;> (try (intros; rename_i he; rw [hst] at he; cases he)) <;> (try exact this)
+    simp [hst]
+  | checkTokenPass att =>
+    rw [hst] at h
+    have := doCheckTokenPass_eff c c' now att hst h
+    constructor <;> (try (intros; rename_i he; rw [hst] at he; cases he)) <;> (try exact this)
+    simp [hst]
+  | awaitStatus a =>
+    rw [hst] at h
+    have := doAwaitStatusResponse_eff c c' now a hst h
+    constructor <;> (try (intros; rename_i he; rw [hst] at he; cases he)) <;> (try exact this)
+    simp [hst]
+
+/-- The first poll after going online leaves `Offline` for `ListenToken`. -/
+def Station.wake (s : Station) : Station :=
+  match s.st with
+  | .offline | .passiveIdle => { s with st := .listenToken none 0 }
+  | _ => s
+
+theorem pollStart_inv (c c1 : Ctx) (h : pollStart c = .ok c1) : c1 = { c with s := c.s.wake } := by
+  unfold pollStart at h
+  unfold Station.wake
+  split at h
+  · obtain ⟨s', hs', hc'⟩ := tr_inv h
+    have := toListenToken_inv hs'
+    subst this; subst hc'
+    simp_all
+  · obtain ⟨s', hs', hc'⟩ := tr_inv h
+    have := toListenToken_inv hs'
+    subst this; subst hc'
+    simp_all
+  · cases h
+    split <;> simp_all
+
+/-- The three ways a poll can go: offline no-op; own transmission still on the wire (only the activity
+stamp moves); or the state handler runs after `check_for_bus_activity`. -/
+theorem poll_cases (s : Station) (apps : Apps) (now : Int) (phy : Bool) (rx : Bytes) (c' : Ctx)
+    (h : s.poll apps now phy rx = .ok c') :
+    (s.online = false ∧ s.st = .offline ∧ c' = { s := s, apps := apps, rx := rx }) ∨
+    (s.online = true ∧ c' = { s := markBusActivity s.wake now, apps := apps, rx := rx }) ∨
+    (s.online = true ∧
+      DispatchPost { s := checkBusActivity s.wake now rx.length, apps := apps, rx := rx } c' now) := by
+  unfold Station.poll pollInner at h
+  cases hon : s.online with
+  | false =>
+    simp only [hon] at h
+    left
+    cases hst : s.st <;> simp only [hst] at h <;> cases h
+    exact ⟨rfl, rfl, rfl⟩
+  | true =>
+    right
+    simp only [hon] at h
+    obtain ⟨c1, hs, h⟩ := bind_ok_inv h
+    have := pollStart_inv _ _ hs
+    subst this
+    rcases ite_inv h with ⟨_, h⟩ | ⟨_, h⟩
+    · cases h; exact .inl ⟨rfl, rfl⟩
+    · refine .inr ⟨rfl, dispatch_post _ c' now ?_ h⟩
+      simp only [upd, checkBA_online]
+      unfold Station.wake
+      split <;> simp [hon]
+
 end PV
